@@ -110,7 +110,7 @@ theorem toFloat_tag {p : List Nat → Option Nat} {v r : Value} (h : Round.toFlo
   · exact bytesToFloat_tag h
   · split at h
     · cases h; rfl
-    · cases h
+    · cases h; rfl
 
 theorem parseFloat_tag {p : List Nat → Option Nat} {v r : Value} (h : Round.parseFloat p v = .ok r) :
     tagOf r = .float := by
